@@ -8,7 +8,9 @@ gen:   fail-closed ast translation of the leaves of src/grid/becke.py into terms
 prove: coq/C06/*.v against the generated leaves (theorems at R).
 tie:   the model takes distance data as input; the harness computes it with the code's own expressions, converts
        the floats to exact rationals and evaluates the model at bigQ (vm_compute) against the implementation.
-search: property oracles directly on the implementation.
+search: property oracles directly on the implementation (random geometries, undefined-radius elements at every position,
+        histories on one instance with in-place edits of the inputs, explicit select); they run even when the translator
+        fails closed, and the first failing input becomes the replay (Ctx.broken_tie).
 """
 from __future__ import annotations
 
@@ -276,6 +278,33 @@ def tr_chunk(fn):
     raise Unsupported("chunk_size assignment not found")
 
 
+PINNED_LOOPS = {
+    "generate_weights": ("""for i in range(sectors):
+    sub_s_ab = s_ab[pt_ind[i]:pt_ind[i + 1]]
+    weights[pt_ind[i]:pt_ind[i + 1]] += sub_s_ab[:, select[i]] / np.sum(sub_s_ab, axis=-1)""",),
+    "compute_weights": ("""for k, i in enumerate(select):
+    ind_start = pt_ind[k]
+    ind_end = pt_ind[k + 1]
+    weights[ind_start:ind_end] += self.compute_atom_weight(points[ind_start:ind_end], atcoords, atnums, i)""",),
+    "__call__": ("""aim_weights = np.concatenate([self.generate_weights(points[ibegin:ibegin + chunk_size], atcoords, atnums, pt_ind=(indices - ibegin).clip(min=0)) for ibegin in range(0, npoints, chunk_size)])""",),
+}
+
+
+def check_pins(ms):
+    """the slicing / accumulation structure is hand-modelled: its source text must be the modelled one"""
+    for m, pins in PINNED_LOOPS.items():
+        have = {ast.dump(n) for n in ast.walk(ms[m]) if isinstance(n, (ast.For, ast.Assign))}
+        for pin in pins:
+            if ast.dump(ast.parse(pin).body[0]) not in have:
+                raise Unsupported(f"{m}: the modelled statement `{pin.splitlines()[0]} ...` is no longer in the source")
+    # every method may only use the instance state the model knows about
+    for m in ("generate_weights", "compute_atom_weight", "compute_weights", "__call__"):
+        for n in ast.walk(ms[m]):
+            if isinstance(n, ast.Attribute) and isinstance(n.value, ast.Name) and n.value.id == "self" \
+                    and n.attr not in ("_radii", "_order", "generate_weights", "compute_atom_weight", "compute_weights"):
+                raise Unsupported(f"{m}: uses self.{n.attr}, which the model does not know")
+
+
 def extract_bragg():
     src = (SRC / "utils.py").read_text()
     for n in ast.parse(src).body:
@@ -309,6 +338,7 @@ def gen(ctx: Ctx):
     for m in ("_switch_func", "_calculate_alpha", "generate_weights", "compute_atom_weight", "compute_weights", "__call__"):
         if m not in ms:
             raise Unsupported(f"method {m} missing")
+    check_pins(ms)
     bragg, ub = extract_bragg()
     if len(bragg) < 87:
         raise Unsupported("_bragg shorter than 87 entries")
@@ -417,30 +447,38 @@ def make_case(ctx: Ctx, i: int, small: bool):
     return {"i": i, "M": M, "order": order, "at": at, "nums": nums, "radii": radii, "pts": pts, "idx": idx, "N": N}
 
 
-def impl_eval(c):
-    """every route of the implementation on one case; exceptions are returned, not raised"""
+def impl_eval(c, b=None, first=None):
+    """every route of the implementation on one case; exceptions are returned, not raised.
+    `b`: an existing BeckeWeights instance to reuse (histories); `first`: name of the route evaluated first."""
     from grid.becke import BeckeWeights
 
     out = {}
     with warnings.catch_warnings():
         warnings.simplefilter("ignore")
-        b = BeckeWeights(radii=c["radii"], order=c["order"])
+        if b is None:
+            b = BeckeWeights(radii=c["radii"], order=c["order"])
         at, nums, pts, idx, M = c["at"], c["nums"], c["pts"], c["idx"], c["M"]
-
-        def tryf(name, f):
+        jobs = [("call", lambda: b(pts, at, nums, idx)),
+                ("gen", lambda: b.generate_weights(pts, at, nums, pt_ind=idx)),
+                ("comp", lambda: b.compute_weights(pts, at, nums, pt_ind=idx))]
+        for A in range(M):
+            jobs.append((("atom", A), lambda A=A: b.compute_atom_weight(pts, at, nums, A)))
+            jobs.append((("gsel", A), lambda A=A: b.generate_weights(pts, at, nums, select=A)))
+            jobs.append((("csel", A), lambda A=A: b.compute_weights(pts, at, nums, select=A)))
+        if first is not None:
+            jobs.sort(key=lambda j: 0 if (j[0] == first or (isinstance(j[0], tuple) and j[0][0] == first)) else 1)
+        for name, f in jobs:
             try:
                 out[name] = np.asarray(f(), dtype=float)
             except Exception as e:  # noqa: BLE001
                 out[name] = e
-
-        tryf("call", lambda: b(pts, at, nums, idx))
-        tryf("gen", lambda: b.generate_weights(pts, at, nums, pt_ind=idx))
-        tryf("comp", lambda: b.compute_weights(pts, at, nums, pt_ind=idx))
-        for A in range(M):
-            tryf(("atom", A), lambda A=A: b.compute_atom_weight(pts, at, nums, A))
-            tryf(("gsel", A), lambda A=A: b.generate_weights(pts, at, nums, select=A))
-            tryf(("csel", A), lambda A=A: b.compute_weights(pts, at, nums, select=A))
     return out
+
+
+def report(ctx: Ctx, obligation, key, observed, text, replay):
+    """a failure of the PROPERTY found on the implementation: collected first; run() decides at the end whether it is
+    reported on its own or as the replay of a broken translator / theorem (Ctx.broken_tie)"""
+    ctx.c06_cands.append((obligation, key, observed, text, replay))
 
 
 def reference(c, cutoff=0.45):
@@ -504,6 +542,11 @@ def case_replay(c, extra=None):
          "indices": c["idx"].tolist(), "order": c["order"], "radii": c["radii"],
          "reproduce": "b = BeckeWeights(radii, order); b(points, atcoords, atnums, indices); b.generate_weights(points, atcoords, atnums, pt_ind=indices); "
                       "b.compute_weights(...); b.compute_atom_weight(points, atcoords, atnums, A)"}
+    if c.get("hist") is not None:
+        d["history_before"] = c["hist"]
+        d["first_route"] = c.get("first")
+        d["reproduce"] = ("ONE instance b = BeckeWeights(radii, order); arrays atcoords/atnums are created once and edited IN PLACE to the values of each "
+                          "entry of history_before (evaluating all routes each time), then to atcoords/atnums of this record; " + d["reproduce"])
     d.update(extra or {})
     return d
 
@@ -520,7 +563,7 @@ def oracle_checks(ctx: Ctx, c, out, budget):
         nfail += 1
         if budget[0] > 0:
             budget[0] -= 1
-            ctx.fail(f"oracle_{kind}", f"{kind}:{case_key(c)}", observed, text, case_replay(c, extra))
+            report(ctx, f"oracle_{kind}", f"{kind}:{case_key(c)}", observed, text, case_replay(c, extra))
 
     for k, v in out.items():
         if isinstance(v, Exception):
@@ -659,25 +702,25 @@ def run(ctx: Ctx):
 
     importlib.reload(gu)
     importlib.reload(gb)
-    bragg = gen(ctx)
-    # translation validation of the table: the live default dictionary is {Z: _bragg[Z]} for Z = 1..86
-    with warnings.catch_warnings():
-        warnings.simplefilter("ignore")
-        live = gb.BeckeWeights()._radii
-    same = sorted(live) == list(range(1, 87)) and all(
-        (live[zz] != live[zz] and bragg[zz] is None) or (bragg[zz] is not None and float(live[zz]) == bragg[zz]) for zz in range(1, 87))
-    if not same:
-        ctx.fail("gen_tables", "table:_radii", None, "BeckeWeights()._radii is not {Z: _bragg[Z] for Z in 1..86} as extracted from utils.py", found_input=False)
-    ctx.copy_coq("C06")
-    status = ctx.coq_build()
-    ctx.register_props(status)
-    if not all(status.get(f, False) for f in ("C06_model_ops.v", "C06_gen.v", "C06_model.v")):
-        ctx.fail("model_build", "model:build", None, "the generated leaves / model no longer compile: " +
-                 "; ".join(f"{k}: {ctx.logs.get(k, '')[-300:]}" for k, v in status.items() if not v and "proofs" not in k and "props" not in k),
-                 found_input=False)
-        model_ok = False
-    else:
-        model_ok = True
+    ctx.c06_cands = []
+    gen_err, bragg, status, model_ok = None, None, {}, False
+    try:
+        bragg = gen(ctx)
+    except Exception as e:  # translator fails closed: the search below still runs on the implementation
+        gen_err = e
+    if gen_err is None:
+        # translation validation of the table: the live default dictionary is {Z: _bragg[Z]} for Z = 1..86
+        with warnings.catch_warnings():
+            warnings.simplefilter("ignore")
+            live = gb.BeckeWeights()._radii
+        same = sorted(live) == list(range(1, 87)) and all(
+            (live[zz] != live[zz] and bragg[zz] is None) or (bragg[zz] is not None and float(live[zz]) == bragg[zz]) for zz in range(1, 87))
+        if not same:
+            ctx.fail("gen_tables", "table:_radii", None, "BeckeWeights()._radii is not {Z: _bragg[Z] for Z in 1..86} as extracted from utils.py", found_input=False)
+        ctx.copy_coq("C06")
+        status = ctx.coq_build()
+        ctx.register_props(status)
+        model_ok = all(status.get(f, False) for f in ("C06_model_ops.v", "C06_gen.v", "C06_model.v"))
 
     # ------------------------------------------------------------------ cases: implementation + oracles
     n_main = 50 if ctx.quick else 400
@@ -749,11 +792,31 @@ def run(ctx: Ctx):
         oracle_checks(ctx, c, out, budget)
         ctx.case(("oracle", i))
     ctx.count("oracle_only_geometries", n_extra)
-
+    # ------------------------------------------------------------------ undefined-radius elements at every position
+    directed_cases(ctx, budget)
+    # ------------------------------------------------------------------ histories on ONE BeckeWeights instance
+    history_cases(ctx, budget)
     # ------------------------------------------------------------------ explicit `select` with a segment table
     select_cases(ctx, cases, model_ok, budget)
     # ------------------------------------------------------------------ Hirshfeld
     hirshfeld_cases(ctx, model_ok, budget)
+
+    # ------------------------------------------------------------------ verdict
+    cands = [(k, o, t, r) for (_, k, o, t, r) in ctx.c06_cands]
+    broken = [n for n, ob in ctx.obligations.items() if ob["status"] != "discharged"]
+    if gen_err is not None:
+        # the translator fails closed: the concrete failing input found by the search (if any) is the replay
+        ctx.broken_tie("translator(becke.py)", f"{type(gen_err).__name__}: {gen_err}", cands)
+    elif not model_ok:
+        ctx.broken_tie("model_build", "the generated leaves / model no longer compile: " +
+                       "; ".join(f"{k}: {ctx.logs.get(k, '')[-300:]}" for k, v in status.items() if not v and "proofs" not in k and "props" not in k),
+                       cands)
+    elif broken:
+        for n in broken:
+            ctx.broken_tie(n, f"theorem {n} ({ctx.obligations[n]['file']}) no longer checks", cands)
+    else:
+        for ob, k, o, t, r in ctx.c06_cands:
+            ctx.fail(ob, k, o, t, r)
 
     ctx.cov["rule"] = (
         "random molecules of 1-9 atoms (Z uniformly from 1..86, 30% forced to elements with undefined Bragg radius, optional custom "
@@ -762,6 +825,11 @@ def run(ctx: Ctx):
         "(__call__, generate_weights, compute_weights with pt_ind; the three per-atom routes for every atom) and checked by property "
         "oracles (sum=1, [0,1], nucleus values, route equality, rigid motion, relabeling); a subset is compared with the Coq model "
         "evaluated by vm_compute on the exact rational values of the code's own float distances (tolerance 1e-10 relative + 1e-13). "
+        "Directed: 15 molecules with undefined-radius elements (He..Rn, At) in every ordering, points = all nuclei (+ relabeling across orderings). "
+        "Histories: ONE BeckeWeights instance evaluated, atcoords/atnums edited in place (same array objects), evaluated again (3 steps, random first "
+        "route), each step checked by the oracles and against a fresh instance. Explicit select: generate_weights and compute_weights with the same "
+        "select/pt_ind against the per-atom route and the model. If the translator fails closed or a theorem breaks, the search still runs and its first "
+        "failing input (not a listed known finding) is the replay (Ctx.broken_tie). "
         "distinct = (geometry, model instance)")
     ctx.trusted += [
         "translator tools/props/c06.py (ast -> NumOps terms) for _switch_func, _calculate_alpha, the v_pp/s_ab/radius lines, chunk_size, _bragg; "
@@ -785,69 +853,160 @@ def run(ctx: Ctx):
 
 
 def select_cases(ctx: Ctx, cases, model_ok, budget):
+    """generate_weights AND compute_weights with the same explicit select + segment table (theorem routes_agree)"""
     from grid.becke import BeckeWeights
 
     exprs, meta = [], []
-    n = 0
+    fixed = {"i": "H2", "M": 2, "order": 3, "at": np.array([[0.0, 0.0, 0.0], [0.0, 0.0, 1.4]]), "nums": np.array([1, 1]), "radii": None,
+             "pts": np.array([[0.0, 0.0, 0.0], [0.0, 0.0, 1.4]]), "idx": np.array([0, 1, 2]), "N": 2, "sel": [1, 0]}
+    todo = [fixed]
     for c in cases:
-        if c["M"] < 2 or n >= (25 if ctx.quick else 250):
-            continue
-        n += 1
-        M, N, idx = c["M"], c["N"], c["idx"]
-        sel = [ctx.rng.randrange(M) for _ in range(M)] if ctx.rng.random() < 0.5 else ctx.rng.sample(range(M), M)
+        if c["M"] >= 2 and len(todo) < (26 if ctx.quick else 250):
+            M = c["M"]
+            todo.append(dict(c, sel=[ctx.rng.randrange(M) for _ in range(M)] if ctx.rng.random() < 0.5 else ctx.rng.sample(range(M), M)))
+    for c in todo:
+        M, N, idx, sel = c["M"], c["N"], c["idx"], c["sel"]
         with warnings.catch_warnings():
             warnings.simplefilter("ignore")
             b = BeckeWeights(radii=c["radii"], order=c["order"])
             try:
                 g = np.asarray(b.generate_weights(c["pts"], c["at"], c["nums"], select=sel, pt_ind=idx), dtype=float)
+                cw = np.asarray(b.compute_weights(c["pts"], c["at"], c["nums"], select=sel, pt_ind=idx), dtype=float)
                 W = np.array([b.compute_atom_weight(c["pts"], c["at"], c["nums"], A) for A in range(M)])
             except Exception as e:  # noqa: BLE001
                 if budget[0] > 0:
                     budget[0] -= 1
-                    ctx.fail("oracle_crash", f"select-crash:{case_key(c)}", type(e).__name__,
-                             f"generate_weights(select={sel}, pt_ind=indices) raised {e}", case_replay(c, {"select": sel}))
+                    report(ctx, "oracle_crash", f"select-crash:{case_key(c)}:{sel}", type(e).__name__,
+                           f"generate_weights / compute_weights(select={sel}, pt_ind=indices) raised {type(e).__name__}: {e}", case_replay(c, {"select": sel}))
                 continue
         own = owner_of(idx, N)
         exp = np.array([W[sel[own[j]], j] for j in range(N)])
         ctx.case(("select", case_key(c), tuple(sel)))
-        if g.shape != (N,) or not np.all(np.isfinite(g)) or np.max(np.abs(g - exp)) > ABS_TOL:
+        badr = [nm for nm, v in (("generate_weights", g), ("compute_weights", cw))
+                if v.shape != (N,) or not np.all(np.isfinite(v)) or np.max(np.abs(v - exp)) > ABS_TOL]
+        if badr:
             if budget[0] > 0:
                 budget[0] -= 1
-                ctx.fail("oracle_routes", f"select:{case_key(c)}:{sel}", g.tolist(),
-                         f"generate_weights(select={sel}, pt_ind=indices) differs from the per-atom weights of the selected atoms on their segments",
-                         case_replay(c, {"select": sel, "expected": exp.tolist()}))
+                report(ctx, "oracle_routes", f"select:{case_key(c)}:{sel}", g.tolist() + cw.tolist(),
+                       f"{' and '.join(badr)}(select={sel}, pt_ind={idx.tolist()}) differ from the per-atom weights of the selected atoms on their "
+                       f"segments: generate_weights {g.tolist()}, compute_weights {cw.tolist()}, per-atom route {exp.tolist()}",
+                       case_replay(c, {"select": sel, "expected": exp.tolist()}))
             continue
         if model_ok and c["M"] ** 2 * c["N"] <= 400:
             n_p, Rm = code_distances(c["at"], c["pts"])
             z = "[" + "; ".join(f"{int(v)}%Z" for v in c["nums"]) + "]"
-            exprs.append(f"run_select QOpsR {c['order']}%nat {M}%nat {tbl_term(c['radii'])} {z} {qll(Rm)} {qll(n_p.T)} {nl(sel)} {nl(idx)} {ql(g)}")
+            exprs.append(f"run_select QOpsR {c['order']}%nat {M}%nat {tbl_term(c['radii'])} {z} {qll(Rm)} {qll(n_p.T)} {nl(sel)} {nl(idx)} {ql(g)} {ql(cw)}")
             meta.append((c, sel))
     if exprs:
         for bi in ctx.coq_bool_cases("C06_select", HDR, exprs, shard=max(2, len(exprs) // 16 + 1))[:3]:
             c, sel = meta[bi]
             ctx.fail("corr_select", f"model-select:{case_key(c)}:{sel}", None,
-                     f"Coq model and implementation of generate_weights(select={sel}, pt_ind=indices) disagree; the oracle found no property violation",
+                     f"Coq model and implementation of generate_weights / compute_weights(select={sel}, pt_ind=indices) disagree; the oracle found no property violation",
                      case_replay(c, {"select": sel}), found_input=False)
-    # the two segment-wise routes with the SAME explicit select (theorem routes_agree_select_refuted): fixed minimal input
-    at = np.array([[0.0, 0.0, 0.0], [0.0, 0.0, 1.4]])
-    nums = np.array([1, 1])
-    with warnings.catch_warnings():
-        warnings.simplefilter("ignore")
-        b = BeckeWeights(order=3)
-        try:
-            g = np.asarray(b.generate_weights(at, at, nums, select=[1, 0], pt_ind=[0, 1, 2]), dtype=float)
-            try:
-                cw = np.asarray(b.compute_weights(at, at, nums, select=[1, 0], pt_ind=[0, 1, 2]), dtype=float).tolist()
-            except Exception as e:  # noqa: BLE001
-                cw = [type(e).__name__]
-            if g.tolist() != cw:
-                ctx.fail("routes_agree_select_refuted", "routes-select:H2:select=[1,0]:pt_ind=[0,1,2]", g.tolist() + cw,
-                         f"generate_weights(points=nuclei of H2, select=[1,0], pt_ind=[0,1,2]) = {g.tolist()} but compute_weights with the same "
-                         f"arguments = {cw}: compute_weights pairs atom i with segment i (for i in select) instead of segment k with select[k]",
-                         {"reproduce": "b=BeckeWeights(order=3); at=np.array([[0,0,0],[0,0,1.4]]); b.generate_weights(at, at, np.array([1,1]), select=[1,0], pt_ind=[0,1,2]); "
-                                       "b.compute_weights(at, at, np.array([1,1]), select=[1,0], pt_ind=[0,1,2])"})
-        except Exception as e:  # noqa: BLE001
-            ctx.fail("oracle_crash", "routes-select-crash:H2", type(e).__name__, f"generate_weights(select=[1,0], pt_ind=[0,1,2]) raised {e}")
+
+
+DIRECTED = [[8, 86], [9, 86, 9], [84, 85, 86], [86, 84], [2, 1], [10, 18], [9, 54, 9], [36, 9, 9], [1, 85], [54, 86], [86, 2, 10],
+            [2, 10, 18, 36], [54, 85, 86, 1], [86, 86, 8], [85, 85, 86]]
+
+
+def directed_cases(ctx: Ctx, budget):
+    """molecules with undefined-radius elements (He Ne Ar Kr Xe At Rn) at EVERY position: all orderings of each
+    multiset; points = all nuclei + a few others; oracles: nucleus values, sum, range, routes, rigid motion, and the
+    weights of one ordering against another (relabeling)"""
+    import itertools
+
+    rng = ctx.rng
+    for mi, zs in enumerate(DIRECTED):
+        M = len(zs)
+        while True:
+            at0 = np.array([[rng.gauss(0, 2.5) for _ in range(3)] for _ in range(M)])
+            if (np.linalg.norm(at0[:, None] - at0, axis=-1) + np.eye(M) * 10).min() > 1.0:
+                break
+        extra = np.array([at0[rng.randrange(M)] + np.array([rng.gauss(0, 2.0) for _ in range(3)]) for _ in range(3)])
+        pts = np.vstack([at0, extra])
+        N = len(pts)
+        perms = sorted(set(itertools.permutations(range(M))))
+        if len(perms) > 6:
+            perms = [perms[0]] + rng.sample(perms[1:], 5 if ctx.quick else 11)
+        base = None
+        order = rng.choice([1, 2, 3, 3, 4])
+        for perm in perms:
+            perm = list(perm)
+            cuts = sorted(rng.randint(0, N) for _ in range(M - 1))
+            c = {"i": f"dir{mi}", "M": M, "order": order, "at": at0[perm].copy(), "nums": np.array(zs, dtype=int)[perm], "radii": None,
+                 "pts": pts, "idx": np.array([0] + cuts + [N], dtype=int), "N": N}
+            out = impl_eval(c)
+            ctx.case(("directed", mi, tuple(perm)))
+            if oracle_checks(ctx, c, out, budget):
+                continue
+            W = np.array([out[("atom", A)] for A in range(M)])
+            un = np.empty_like(W)
+            un[perm] = W                      # back to the labels of the first ordering
+            if base is None:
+                base = (un, c)
+            elif np.max(np.abs(un - base[0])) > 1e-10 and budget[0] > 0:
+                budget[0] -= 1
+                d = float(np.max(np.abs(un - base[0])))
+                report(ctx, "oracle_relabel", f"relabel:{case_key(c)}", d,
+                       f"atoms {c['nums'].tolist()} vs the same molecule listed as {base[1]['nums'].tolist()}: the weights of the same atoms differ by {d!r}",
+                       case_replay(c, {"other_order_atnums": base[1]["nums"].tolist(), "other_order_atcoords": base[1]["at"].tolist()}))
+    ctx.count("directed_molecules", len(DIRECTED))
+
+
+def history_cases(ctx: Ctx, budget):
+    """ONE BeckeWeights instance along a history: evaluate, edit atcoords and/or atnums IN PLACE (same array objects),
+    evaluate again; every step is checked by the property oracles and against a fresh instance on copies"""
+    from grid.becke import BeckeWeights
+
+    rng = ctx.rng
+    nh = 24 if ctx.quick else 240
+    for hi in range(nh):
+        c = make_case(ctx, 200000 + hi, False)
+        if c["M"] < 2:
+            continue
+        c["i"] = f"hist{hi}"
+        first = rng.choice(["call", "gen", "comp", "atom", "gsel", "csel"])
+        with warnings.catch_warnings():
+            warnings.simplefilter("ignore")
+            b = BeckeWeights(radii=c["radii"], order=c["order"])
+        hist = []
+        for step in range(3):
+            if step > 0:
+                kind = rng.choice(["coords", "coords", "nums", "both"])
+                j = rng.randrange(c["M"])
+                if kind in ("coords", "both"):
+                    c["at"][j] += np.array([rng.gauss(0, 0.8) for _ in range(3)])        # in place: same array object
+                if kind in ("nums", "both"):
+                    c["nums"][j] = rng.choice([1, 6, 8, 2, 17, 26, 55, 86, 35])            # in place
+                dm = np.linalg.norm(c["at"][:, None] - c["at"], axis=-1) + np.eye(c["M"]) * 10
+                if dm.min() < 0.3:
+                    break
+                # points follow the new geometry: nuclei exactly, plus points near the atoms
+                c["pts"] = np.array([c["at"][rng.randrange(c["M"])].copy() if rng.random() < 0.4 else
+                                     c["at"][rng.randrange(c["M"])] + np.array([rng.gauss(0, 1.5) for _ in range(3)]) for _ in range(c["N"])])
+            hist.append({"atcoords": c["at"].tolist(), "atnums": c["nums"].tolist(), "points": c["pts"].tolist(), "indices": c["idx"].tolist()})
+            c["hist"] = hist[:-1]
+            c["first"] = first
+            out = impl_eval(c, b=b, first=first)
+            ctx.case(("history", hi, step))
+            if oracle_checks(ctx, c, out, budget):
+                break
+            fresh = impl_eval(dict(c, at=c["at"].copy(), nums=c["nums"].copy()))
+            worst = None
+            for k, v in out.items():
+                f = fresh[k]
+                if isinstance(f, Exception) or isinstance(v, Exception):
+                    continue
+                d = float(np.max(np.abs(v - f))) if v.shape == f.shape else float("inf")
+                if d > ABS_TOL and (worst is None or d > worst[0]):
+                    worst = (d, k)
+            if worst and budget[0] > 0:
+                budget[0] -= 1
+                report(ctx, "oracle_history", f"history:{case_key(c)}:step{step}", worst[0],
+                       f"route {worst[1]} on a BeckeWeights instance that was used before (atcoords/atnums edited in place since) differs by {worst[0]!r} "
+                       f"from a fresh instance on the same inputs (step {step} of the history)", case_replay(c))
+                break
+    ctx.count("histories", nh)
 
 
 def hirshfeld_cases(ctx: Ctx, model_ok, budget):
@@ -883,7 +1042,7 @@ def hirshfeld_cases(ctx: Ctx, model_ok, budget):
         except Exception as e:  # noqa: BLE001
             if budget[0] > 0:
                 budget[0] -= 1
-                ctx.fail("oracle_crash", f"crash:{key}", type(e).__name__, f"HirshfeldWeights raised {e}", rp)
+                report(ctx, "oracle_crash", f"crash:{key}", type(e).__name__, f"HirshfeldWeights raised {e}", rp)
             continue
         bad = None
         tot = pro.sum(axis=0)
@@ -899,7 +1058,7 @@ def hirshfeld_cases(ctx: Ctx, model_ok, budget):
         if bad:
             if budget[0] > 0:
                 budget[0] -= 1
-                ctx.fail(f"oracle_{bad[0]}", f"{bad[0]}:{key}", w.tolist(), bad[1], rp)
+                report(ctx, f"oracle_{bad[0]}", f"{bad[0]}:{key}", w.tolist(), bad[1], rp)
             continue
         if model_ok and np.all(tot > 1e-9):
             tab = "[" + "; ".join("[" + "; ".join(f"({q_bigq(float(dist[A, j]))}, {q_bigq(float(pro[A, j]))})" for j in range(N)) + "]" for A in range(M)) + "]"
@@ -934,8 +1093,48 @@ def replay(rp: dict) -> int:
             self.fails.append(text)
 
     st = Stub()
-    out = impl_eval(c)
+    st.c06_cands = []
+    if rp.get("history_before") is not None:
+        from grid.becke import BeckeWeights
+
+        with warnings.catch_warnings():
+            warnings.simplefilter("ignore")
+            b = BeckeWeights(radii=c["radii"], order=c["order"])
+        final_at, final_nums, final_pts, final_idx = c["at"].copy(), c["nums"].copy(), c["pts"], c["idx"]
+        steps = rp["history_before"]
+        if steps:
+            c["at"], c["nums"] = np.array(steps[0]["atcoords"], dtype=float), np.array(steps[0]["atnums"], dtype=int)
+        for h in steps:
+            c["at"][...] = np.array(h["atcoords"], dtype=float)          # in place: the same array objects throughout
+            c["nums"][...] = np.array(h["atnums"], dtype=int)
+            c["pts"], c["idx"], c["N"] = np.array(h["points"], dtype=float), np.array(h["indices"], dtype=int), len(h["points"])
+            impl_eval(c, b=b, first=rp.get("first_route"))
+        c["at"][...] = final_at
+        c["nums"][...] = final_nums
+        c["pts"], c["idx"], c["N"] = final_pts, final_idx, len(final_pts)
+        out = impl_eval(c, b=b, first=rp.get("first_route"))
+        fresh = impl_eval(dict(c, at=c["at"].copy(), nums=c["nums"].copy()))
+        for k, v in out.items():
+            if not isinstance(v, Exception) and not isinstance(fresh[k], Exception) and v.shape == fresh[k].shape \
+                    and np.max(np.abs(v - fresh[k])) > ABS_TOL:
+                st.fails.append(f"route {k} on the reused instance differs from a fresh instance by {np.max(np.abs(v - fresh[k]))!r}")
+    else:
+        out = impl_eval(c)
+    if rp.get("select") is not None:
+        from grid.becke import BeckeWeights
+
+        with warnings.catch_warnings():
+            warnings.simplefilter("ignore")
+            b2 = BeckeWeights(radii=c["radii"], order=c["order"])
+            try:
+                g = b2.generate_weights(c["pts"], c["at"], c["nums"], select=rp["select"], pt_ind=c["idx"])
+                cw = b2.compute_weights(c["pts"], c["at"], c["nums"], select=rp["select"], pt_ind=c["idx"])
+                if np.max(np.abs(np.asarray(g) - np.asarray(cw))) > ABS_TOL:
+                    st.fails.append(f"generate_weights {np.asarray(g).tolist()} != compute_weights {np.asarray(cw).tolist()} for select={rp['select']}")
+            except Exception as e:  # noqa: BLE001
+                st.fails.append(f"explicit select raised {type(e).__name__}: {e}")
     oracle_checks(st, c, out, [100])
+    st.fails += [t for (_, _, _, t, _) in st.c06_cands]
     for t in st.fails:
         print("STILL FAILS:", t)
     if not st.fails:
